@@ -198,7 +198,48 @@ def maxima():
     return progs
 
 
-GROUPS = {"legality": legality, "shapes": shapes, "maxima": maxima}
+def inbound():
+    """C04: the inbound side at its limits -- eight QoS 2 exchanges open at once (the advertised Receive
+    Maximum), retransmissions of each before its PUBREL, PUBREL for known and unknown identifiers,
+    QoS 1 publishes with an identifier that is pending as QoS 2, sizes up to the receive buffer."""
+    progs = []
+
+    def pub(q, pid, payload, dup=False, topic="i"):
+        t = b(topic)
+        body = [len(t) >> 8, len(t) & 255] + t + ([pid >> 8, pid & 255] if q else []) + [0] + payload
+        first = 0x30 | (q << 1) | (8 if dup else 0)
+        n = len(body)
+        ln = [n] if n < 128 else [(n & 127) | 128, n >> 7]
+        return {"e": "b", "bytes": [first] + ln + body}
+
+    def rel(pid):
+        return {"e": "b", "bytes": [0x62, 2, pid >> 8, pid & 255]}
+    for rx in (128, 200):
+        steps = []
+        for pid in range(1, 9):
+            steps += [pub(2, pid, [pid]), {"e": "poll"}, {"e": "poll"}]
+        for pid in (3, 8, 1):                       # retransmissions while the table is full
+            steps += [pub(2, pid, [pid], dup=True), {"e": "poll"}, {"e": "poll"}]
+        steps += [pub(1, 3, [33]), {"e": "poll"}, {"e": "poll"}]          # QoS 1 with an identifier pending as QoS 2
+        for pid in (2, 9, 2):                       # known, unknown, already released
+            steps += [rel(pid), {"e": "poll"}, {"e": "poll"}]
+        steps += [pub(2, 2, [22]), {"e": "poll"}, {"e": "poll"}]          # the identifier is free again: a new message
+        for pid in (1, 3, 4, 5, 6, 7, 8, 2):
+            steps += [rel(pid), {"e": "poll"}, {"e": "poll"}]
+        # sizes: one byte below, at, and (QoS 0) exactly the receive buffer
+        for q in (0, 1, 2):
+            over = 2 + 3 + (2 if q else 0) + 1 + (1 if rx - 6 >= 128 else 0)
+            for d in (-1, 0):
+                steps += [pub(q, 20 + q, [7] * (rx - over + d)), {"e": "poll"}, {"e": "poll"}, {"e": "poll"}]
+            if q == 2:
+                steps += [rel(22), {"e": "poll"}, {"e": "poll"}]
+        steps += POLLS
+        progs.append({"cfg": {"rx": rx, "tx": 512, "ka": 0, "sei": 0, "client_id": b("in%d" % rx), "name": "inbound-%d" % rx},
+                      "steps": steps})
+    return progs
+
+
+GROUPS = {"legality": legality, "shapes": shapes, "maxima": maxima, "inbound": inbound}
 
 if __name__ == "__main__":
     import sys
